@@ -1,4 +1,201 @@
+//! Engine A (feature asyncio): C20, async handler == sync handler.
+use std::future::Future;
+use std::pin::Pin;
+use std::sync::Arc;
+use std::task::{Context as TaskContext, Poll, Wake, Waker};
+
+use fbrv::args::Args;
+use fbrv::engines::wire_eng::{c01_shapes, client_view, virt_layout, Script, Tr};
+use fbrv::env::{Exec, FuseDev, Serve, Virtio};
+use fbrv::kabi as k;
+use fbrv::ops;
+use fbrv::report::{hex, Report};
+use fbrv::scriptfs::ScriptFs;
+use fbrv::wire::Req;
+use fuse_backend_rs::api::server::Server;
+use fuse_backend_rs::transport::{FsCacheReqHandler, Reader, Writer};
+use serde_json::json;
+use vm_memory::bitmap::BitmapSlice;
+
+struct Noop;
+impl Wake for Noop {
+    fn wake(self: Arc<Self>) {}
+}
+
+fn block_on<F: Future>(mut f: Pin<&mut F>) -> Result<F::Output, String> {
+    let waker = Waker::from(Arc::new(Noop));
+    let mut cx = TaskContext::from_waker(&waker);
+    for _ in 0..1000 {
+        if let Poll::Ready(v) = f.as_mut().poll(&mut cx) {
+            return Ok(v);
+        }
+    }
+    Err("future stayed pending although the scripted filesystem never pends".into())
+}
+
+struct AsyncSide<'a>(&'a Server<Arc<ScriptFs>>);
+
+impl Serve for AsyncSide<'_> {
+    fn serve<S: BitmapSlice>(&self, r: Reader<'_, S>, w: Writer<'_, S>, vu: Option<&mut dyn FsCacheReqHandler>) -> Result<usize, String> {
+        let fut = unsafe { self.0.async_handle_message(r, w, vu, None) };
+        let mut fut = Box::pin(fut);
+        match block_on(fut.as_mut()) {
+            Ok(r) => r.map_err(|e| format!("{:?}", e)),
+            Err(e) => Err(e),
+        }
+    }
+}
+
+struct Rig {
+    fs: Arc<ScriptFs>,
+    server: Server<Arc<ScriptFs>>,
+    dev: FuseDev,
+    virt: Virtio,
+}
+
+impl Rig {
+    fn run(&mut self, asynch: bool, req: &[u8], tr: &Tr, sc: Script) -> (Exec, Vec<String>) {
+        self.fs.reset(sc.answer());
+        let ex = match tr {
+            Tr::Virt { cuts, wr, gap, wr_in_b, cache } => {
+                let (rd, wrs) = virt_layout(req.len(), cuts, wr, *gap, *wr_in_b);
+                if asynch {
+                    self.virt.run(&AsyncSide(&self.server), req, &rd, &wrs, *cache)
+                } else {
+                    self.virt.run(&self.server, req, &rd, &wrs, *cache)
+                }
+            }
+            Tr::Sep(cap) => {
+                if asynch {
+                    self.dev.via_file(&AsyncSide(&self.server), req, *cap)
+                } else {
+                    self.dev.via_file(&self.server, req, *cap)
+                }
+            }
+            Tr::Chan => unreachable!(),
+        };
+        (ex, self.fs.take_log())
+    }
+}
+
+fn compare(rig: &mut Rig, rep: &mut Report, req: &[u8], tr: &Tr, sc: Script, label: &str) {
+    rep.eval();
+    rep.transitions += 2;
+    let is_init = req.len() >= 8 && fbrv::wire::get(req, &k::FUSE_IN_HEADER, "opcode") == k::FUSE_INIT;
+    let (ex_s, log_s) = rig.run(false, req, tr, sc);
+    if is_init {
+        rig.server = Server::new(rig.fs.clone());
+    }
+    let (ex_a, log_a) = rig.run(true, req, tr, sc);
+    if is_init {
+        rig.server = Server::new(rig.fs.clone());
+    }
+    let opn = if req.len() >= 8 { ops::op_name(fbrv::wire::get(req, &k::FUSE_IN_HEADER, "opcode")) } else { "short".into() };
+    let (rs, _) = client_view(tr, &ex_s);
+    let (ra, _) = client_view(tr, &ex_a);
+    let mut diffs: Vec<(String, String)> = Vec::new();
+    if ex_a.panic.is_some() && ex_s.panic.is_none() {
+        diffs.push(("async-panics".into(), format!("async handler panicked: {:?}", ex_a.panic)));
+    }
+    if log_s != log_a {
+        let class = if log_a.is_empty() { "call-missing" } else if log_s.is_empty() { "extra-call" } else { "call-differs" };
+        diffs.push((class.into(), format!("sync handler called {:?}, async handler called {:?}", log_s, log_a)));
+    }
+    if rs != ra {
+        let class = if ra.is_empty() {
+            "reply-missing".to_string()
+        } else if rs.is_empty() {
+            "extra-reply".to_string()
+        } else if ra[0].len() != rs[0].len() {
+            "reply-length-differs".to_string()
+        } else {
+            "reply-bytes-differ".to_string()
+        };
+        diffs.push((class, format!("sync emitted {:?}, async emitted {:?}", rs.iter().map(|r| hex(&r[..r.len().min(48)])).collect::<Vec<_>>(), ra.iter().map(|r| hex(&r[..r.len().min(48)])).collect::<Vec<_>>())));
+    }
+    let trk = if tr.is_virtio() { "virtio" } else { "fusedev" };
+    rep.outcome(&format!("{}:{}:{}", opn, trk, if diffs.is_empty() { "same" } else { "DIFFERENT" }));
+    rep.state_of(&(req, tr, sc.name()));
+    rep.sample(|| json!({"case": label, "transport": tr.label(), "script": sc.name(), "sync_calls": log_s, "sync_reply_len": rs.first().map(|r| r.len())}));
+    for (class, msg) in diffs {
+        rep.violation(&format!("C20/{}/{}/{}", opn, class, trk), &msg, || {
+            json!({"engine": "async", "case": label, "request_hex": hex(&req[..req.len().min(4200)]), "request_len": req.len(), "transport": tr.to_replay(), "script": sc.name()})
+        });
+    }
+}
+
+fn c20(args: &Args) -> Report {
+    let mut rep = args.report();
+    let fs = Arc::new(ScriptFs::new());
+    let mut rig = Rig { server: Server::new(fs.clone()), fs, dev: FuseDev::new(), virt: Virtio::new(1, 6 << 20, 3 << 20) };
+    let thorough = args.thorough();
+    let mut idx = 0u64;
+    let trs: Vec<Tr> = vec![
+        Tr::Sep(8192 + 16),
+        Tr::Sep(16),
+        Tr::Sep(0),
+        Tr::Sep(120),
+        Tr::Virt { cuts: vec![], wr: vec![8208], gap: 0, wr_in_b: false, cache: true },
+        Tr::Virt { cuts: vec![40], wr: vec![16, 8192], gap: 8, wr_in_b: true, cache: true },
+        Tr::Virt { cuts: vec![40], wr: vec![], gap: 8, wr_in_b: true, cache: true },
+        Tr::Virt { cuts: vec![13], wr: vec![15, 1, 100], gap: 8, wr_in_b: true, cache: false },
+    ];
+    let mut opcodes: Vec<u64> = (0..=52).collect();
+    opcodes.extend([4096u64, 1 << 20, u32::MAX as u64]);
+    let maxlen = ((1u64 << 20) + 4096) as u32;
+    for &op in &opcodes {
+        // malformed and well-formed shapes of the C01 generator
+        for sh in c01_shapes(op, thorough, 8208) {
+            let true_len = (40 + sh.body.len()) as u32;
+            let mut lens: Vec<Option<u32>> = vec![None];
+            if sh.wellformed || thorough {
+                lens.extend([Some(0), Some(39), Some(true_len + 1), Some(maxlen - 1), Some(maxlen), Some(maxlen + 1), Some(u32::MAX)]);
+            }
+            for len in lens {
+                let req = Req { len, ..Req::new(op, 1, sh.body.clone()) }.bytes();
+                for tr in &trs {
+                    for sc in Script::ALL.iter().chain(Script::KINDS.iter()).copied() {
+                        if !thorough && len.is_some() && sc != Script::OkSmall {
+                            continue;
+                        }
+                        if matches!(sc, Script::Kind(_)) && !sh.wellformed {
+                            continue;
+                        }
+                        if rep.mine(idx) {
+                            compare(&mut rig, &mut rep, &req, tr, sc, &format!("{}:{}:len={:?}", ops::op_name(op), sh.label, len));
+                        }
+                        idx += 1;
+                    }
+                }
+            }
+        }
+        // well-formed DEV(1) of the C02 generator
+        if ops::ALL_OPS.contains(&op) && op != k::FUSE_INIT {
+            for (label, c) in fbrv::engines::wire_eng::c02_dev1_cases(op, thorough) {
+                let req = c.req().bytes();
+                for tr in trs.iter().filter(|t| t.capacity() >= 8192) {
+                    if rep.mine(idx) {
+                        compare(&mut rig, &mut rep, &req, tr, Script::OkSmall, &label);
+                    }
+                    idx += 1;
+                }
+            }
+        }
+    }
+    rep.set("total_cases_all_shards", json!(idx));
+    rep
+}
+
 fn main() {
-    eprintln!("engine A not built yet");
-    std::process::exit(2);
+    let args = Args::parse();
+    fbrv::env::quiet_panics();
+    let rep = match args.prop.as_str() {
+        "C20" => c20(&args),
+        p => {
+            eprintln!("unknown property {} for the async engine", p);
+            std::process::exit(2);
+        }
+    };
+    rep.finish();
+    fbrv::env::cleanup_scratch();
 }
